@@ -27,9 +27,9 @@ func (f FaultAt) String() string {
 // ApplicableFaults lists the fault kinds that make sense for an external call.
 func ApplicableFaults(c kit.Call) []kit.FaultKind {
 	if c.Target == "store" && c.Op == "Store" {
-		return []kit.FaultKind{kit.FaultError, kit.FaultDup, kit.FaultAfter, kit.FaultDupError}
+		return []kit.FaultKind{kit.FaultError, kit.FaultDup, kit.FaultAfter, kit.FaultDupError, kit.FaultSlow, kit.FaultCancel}
 	}
-	return []kit.FaultKind{kit.FaultError}
+	return []kit.FaultKind{kit.FaultError, kit.FaultSlow, kit.FaultCancel}
 }
 
 // KeyStates are the starting states of the fault scenarios.
@@ -70,7 +70,7 @@ func DrawScenario(t *rapid.T, states []string) *FaultScenario {
 			Parts:    []string{"part0", "part1"},
 			Policies: []*appencryption.CryptoPolicy{pol},
 		},
-		Opt: Options{SmallPayloads: true},
+		Opt: Options{SmallPayloads: true, Suffix: rapid.SampledFrom([]string{"", "", "us-west-2"}).Draw(t, "regionSuffix")},
 	}
 }
 
